@@ -9,7 +9,7 @@
    The statements hold for every fuel. *)
 From Coq Require Import NArith ZArith List Bool Arith.
 From XV Require Import Base.Str Base.Eqb Base.PyInt Model.Bind Model.Parser Model.ParserCorr Spec.Inject
-  Proofs.ParserSkip Proofs.ParserMatrix Proofs.ParserAttrs Proofs.ParserWitness.
+  Proofs.ParserSkip Proofs.ParserMatrix Proofs.ParserAttrs Proofs.ParserWitness Proofs.ParserFuel.
 Import ListNotations.
 
 (* 1. fail_on_unknown_properties = False: a balanced subtree (any attributes, any text, any
@@ -123,3 +123,25 @@ Theorem C10_conversion_matrix_attribute : forall cfg c en var s p,
     else ROk (pset (v_name var) (PV (VP (PStr s))) p, [WConv (m_clazz (en_meta en)) (v_name var)]).
 Proof. exact conversion_matrix_attr. Qed.
 Print Assumptions C10_conversion_matrix_attribute.
+
+(* 7. the fuel of `parse` is enough (a UnionNode replays a strictly shorter stream), so the
+      statements above read for `parse` itself: *)
+Theorem C10_parse_fuel : forall n c u cfg root evs,
+  (length evs <= n)%nat -> parse_n n cfg c u root evs = parse cfg c u root evs.
+Proof. exact parse_n_ge. Qed.
+Print Assumptions C10_parse_fuel.
+
+Theorem C10_skip_transparent_parse : forall cfg c u root steps d' d,
+  undo_admissible (length d') cfg c u root d' steps = Some d ->
+  parse cfg c u root d' = parse cfg c u root d.
+Proof. exact skip_transparent_parse. Qed.
+Print Assumptions C10_skip_transparent_parse.
+
+Theorem C10_strict_rejects_parse : forall cfg c u root pre sub post st q,
+  fail_unknown_props cfg = true ->
+  tree_root sub = Some q ->
+  run_n (length (pre ++ sub ++ post)) cfg c u root pre = ROk st ->
+  class_bound_unknown st q = true ->
+  parse cfg c u root (pre ++ sub ++ post) = Err ParserError.
+Proof. intros. unfold parse. eapply strict_rejects_sub; eassumption. Qed.
+Print Assumptions C10_strict_rejects_parse.
